@@ -35,7 +35,7 @@ class C17(SamplerProp):
     FUNCTIONS = ['__init__', 'add_fragment', 'sample', '_select_bonding_operator', '_set_bond_order_defaults',
                  'find_complementary_bonding_descriptor', 'find_open_bonds', 'compute_mass', 'from_fragment_string', 'merge_graphs']
     ASSUMPTIONS = ['RNG stream R(seed, k, n), target weight and supplied masses symbolic as in C16; one path runs TWO histories with the same '
-                   'seed: (1) construct-and-sample in a fresh process, (2) module state reset (= another fresh process), unrelated decoy samplers '
+                   'seed (the concrete int 0 - the value a truthiness test confuses with no seed; R is uninterpreted in the seed): (1) construct-and-sample in a fresh process, (2) module state reset (= another fresh process), unrelated decoy samplers '
                    'first (same names / other bodies; same fragments listed in the other order, growing one fragment with pinned draws), then the '
                    'same construct-and-sample; the two runs also have independent set-iteration orders (two hash seeds); the stream returns the '
                    'same value for the same (seed, k, n)',
